@@ -287,11 +287,13 @@ def interrupted_rule(ctx, r):
                 continue
             # back to the read; a return on the way is tolerated only behind another call (its own failure, e.g.
             # ensure_capacity()?), never as the direct answer to the interrupted read
-            callbbs = {x.bb for x in f.calls() if not x.path.startswith("core::ptr::drop_in_place")}
-            retried = all(c.bb in C.reach(f, [te[1]]) and
-                          not [b_ for b_ in C.reach(f, [te[1]], stop_blocks=callbbs | {c.bb})
-                               if f.blocks[b_]["term"]["k"] == "return"]
-                          for bb, te, fe, e in tests)
+            def only_err_returns(edge_target, bb_):
+                s3 = Sccp(f, stop_blocks={c.bb}).run([(edge_target, dict(s_.env_in.get(bb_, {})))])
+                vals3 = set()
+                for v_ in s3.ret_values.values():
+                    vals3 |= set(value_set(v_)) if v_ is not None else {None}
+                return all(v_ is not None and v_[1] == "Err" for v_ in vals3)
+            retried = all(c.bb in C.reach(f, [te[1]]) and only_err_returns(te[1], bb) for bb, te, fe, e in tests)
             if retried:
                 r.ok("retry|" + key, "Err(Interrupted) ⇒ back to the read, no return on the way", fn=f)
             else:
